@@ -300,6 +300,7 @@ fn cmd_check(a: &BTreeMap<String, String>) -> i32 {
     let replay_dir = a.get("replay-dir").cloned().unwrap_or_else(|| "/verif/replays".into());
     let tier = a.get("tier").cloned().unwrap_or_else(|| "quick".into());
     ANNOUNCE.store(a.contains_key("announce"), Ordering::Relaxed);
+    gen::SMALL.store(a.contains_key("small"), Ordering::Relaxed);
     let t0 = Instant::now();
     let sh = Shared {
         hashes: Mutex::new(HashSet::new()),
@@ -511,6 +512,7 @@ fn cmd_one(a: &BTreeMap<String, String>) -> i32 {
 
 /// One execution from a run seed plus an enumerated crash point (replay of a Miri finding).
 fn cmd_exec(a: &BTreeMap<String, String>) -> i32 {
+    gen::SMALL.store(a.contains_key("small"), Ordering::Relaxed);
     let prop = prop_static(a.get("prop").map(|s| s.as_str()).unwrap_or("C02"));
     let seed: u64 = get(a, "run-seed", 0);
     let f = FaultSpec {
